@@ -206,11 +206,20 @@ def msg_kind(m):
 
 def run_case(case, want_model_lines=True):
     """Run one input through every in-process entry point.  Returns a dict; never raises."""
+    res = _run_case_budget(case, want_model_lines, case.get("timeout", CASE_TIMEOUT))
+    if res["outcome"] == "timeout" and not any(k.startswith("timeout:constant-field-size") for k, _ in res["bad"]):
+        # a budget exhaustion is only believed when it repeats with three times the budget
+        # (CPU-time accounting on a heavily shared VM is noisy)
+        res = _run_case_budget(case, want_model_lines, 3 * case.get("timeout", CASE_TIMEOUT))
+    return res
+
+
+def _run_case_budget(case, want_model_lines, budget):
     files, main = case["files"], case["main"]
     res = {"kind": case["kind"], "outcome": None, "bad": [], "kinds": [], "fmt": None}
     # CPU-time budget (ITIMER_PROF), not wall time: immune to the load of a shared machine
     old = signal.signal(signal.SIGPROF, _alarm)
-    signal.setitimer(signal.ITIMER_PROF, case.get("timeout", CASE_TIMEOUT))
+    signal.setitimer(signal.ITIMER_PROF, budget)
     try:
         _run_case(case, files, main, res, want_model_lines)
     except _Timeout:
@@ -218,7 +227,7 @@ def run_case(case, want_model_lines=True):
         key = "timeout"
         if any(HUGE_SIZE.search(t) for t in files.values()):
             key = "timeout:constant-field-size>=10^6"
-        res["bad"].append((key, "no result within %d s of CPU time" % case.get("timeout", CASE_TIMEOUT)))
+        res["bad"].append((key, "no result within %d s of CPU time" % budget))
     except Exception as e:  # noqa: BLE001  (a defect of this harness, or a message so malformed the oracle fails)
         res["outcome"] = "oracle-failure"
         res["bad"].append(("oracle-failure:%s" % type(e).__name__, "the C16 oracle itself raised: " + " | ".join(tb_tail(e))))
@@ -381,7 +390,7 @@ class Explorer:
         budget — e.g. an import queue that no longer terminates — the first such input is
         already reported as a violation; running thousands more would take hours."""
         timeouts = 0
-        starts = [0, 48] + list(range(48 + batch, len(cases), batch))
+        starts = [0, 16] + list(range(16 + batch, len(cases), batch))
         for i, j in zip(starts, starts[1:] + [len(cases)]):
             part = cases[i:j]
             if not part:
@@ -390,7 +399,7 @@ class Explorer:
                 self.record(c, res)
                 if res["outcome"] == "timeout" and not any(k.startswith("timeout:constant-field-size") for k, _ in res["bad"]):
                     timeouts += 1
-            if timeouts >= 12:
+            if timeouts >= 8:
                 self.chk.extra["exploration_aborted"] = ("%d inputs exhausted the %d s CPU budget within the first %d; "
                                                          "exploration stopped (violation already reported)" % (
                                                              timeouts, CASE_TIMEOUT, i + len(part)))
@@ -403,6 +412,7 @@ class Explorer:
         x["error_kinds_hit"] = len(self.kinds)
         x["top_error_kinds"] = sorted(self.kinds.items(), key=lambda kv: -kv[1])[:25]
         x["crash_sites_seen"] = self.crash_sites
+        x.pop("_caret_reported", None)
         rep = x.pop("_reported", {})
         x["violating_keys_seen"] = rep
 
@@ -543,14 +553,45 @@ def gen_format_cases(r, n):
         yield files, groups
 
 
+def spec_caret_ok(groups, files):
+    """Spec of the snippet (independent of the code): when a message lies on an existing,
+    non-empty line of a known file, the last two pieces are that line and an indicator of
+    `column-1` blanks followed by one caret per located character (at least one; exactly one
+    for multi-line spans)."""
+    for g in groups:
+        for m in g:
+            loc = m.location
+            if loc.is_synthetic or m.source_file not in files:
+                continue
+            lines = files[m.source_file].splitlines()
+            if not (1 <= loc.start.line <= len(lines)) or not lines[loc.start.line - 1]:
+                continue
+            try:
+                pieces = m.format(files)
+            except Exception:  # noqa: BLE001
+                return False
+            width = max(1, loc.end.column - loc.start.column) if loc.start.line == loc.end.line else 1
+            if len(pieces) < 2 or pieces[-2][1] != lines[loc.start.line - 1] + "\n" or \
+                    pieces[-1][1] != " " * (loc.start.column - 1) + "^" * width:
+                return False
+    return True
+
+
 def tie_format(chk, r, n, explored):
     t = Tie(chk, "FORMAT")
     for files, groups in gen_format_cases(r, n):
+        caret_ok = spec_caret_ok(groups, files)
+        if not caret_ok and not chk.extra.get("_caret_reported"):
+            chk.extra["_caret_reported"] = True
+            chk.violation("input", {"files": files, "groups": repr(groups)[:1500],
+                                    "observed": real_format_answer(groups, files, False)[:600],
+                                    "expected": "source line followed by column-1 blanks and max(1, end-start) carets"},
+                          key="caret-does-not-mark-span")
         for color in (False, True):
             want = real_format_answer(groups, files, color)
             line = "FORMAT %d %s %s" % (1 if color else 0, enc_sources(files), enc_groups(groups))
-            # spec: rendering never fails when every group is non-empty
-            spec_ok = not (want.startswith("crash") and all(groups))
+            # spec: rendering never fails when every group is non-empty; the caret line marks the span
+            spec_ok = not (want.startswith("crash") and all(groups)) and caret_ok
             t.add(line, want, {"files": files, "groups": repr(groups)[:1500]}, spec_ok)
             if want.startswith("ok"):
                 chk.nontrivial("fmt:" + want[:60])
@@ -868,7 +909,7 @@ def run_cli(job):
         if needs and not os.path.exists(needs):
             break
         try:
-            p = subprocess.run(cmd, cwd=d, env=env, stdout=subprocess.PIPE, stderr=subprocess.PIPE, timeout=300)
+            p = subprocess.run(cmd, cwd=d, env=env, stdout=subprocess.PIPE, stderr=subprocess.PIPE, timeout=180)
         except subprocess.TimeoutExpired:
             res.append((name, "timeout", "", ""))
             break
@@ -894,7 +935,7 @@ def explore_cli(chk, r, n, pool_cases, procs=4):
             chk.count()
             problem = None
             if rc == "timeout":
-                problem = ("cli-timeout:" + name, "no exit within 300 s")
+                problem = ("cli-timeout:" + name, "no exit within 180 s")
             elif "Traceback (most recent call last)" in stderr:
                 m = re.findall(r'File "([^"]+)", line \d+, in (\S+)', stderr)
                 exc = re.findall(r"^(\w+(?:\.\w+)*(?:Error|Exception))\b", stderr, re.M)
